@@ -138,7 +138,7 @@ def check_kernel_contract(ctx, calls, length, what):
                               'the real kernel violated KernSafe/KernLive: a hypothesis of the theorems does not hold here', no_input=True)
 
 
-def verify_case(ctx, root, c, pairs, r, label, known=None):
+def verify_case(ctx, root, c, pairs, r, label, known=None, linux=1):
     """oracle (exit 0 => identical) + model correspondence for every file. Returns number of mismatches."""
     bad = 0
     reqs, meta = [], []
@@ -170,12 +170,12 @@ def verify_case(ctx, root, c, pairs, r, label, known=None):
                 ctx.violation(f'{label}-clone-then-copy.json', dict(case=c.__dict__, calls=calls[:20]), 'data copied after a successful clone', no_input=True)
             continue
         st = os.stat(src)
-        sparse = st.st_blocks < st.st_size // 512
+        sparse = bool(linux) and st.st_blocks < st.st_size // 512
         b = eff_bsize(c)
         if c.driver == 'parfile':
             ans, toks = script_for(calls, src, dst)
             sk = fsutil.seek_segments(src) if sparse else []
-            reqs.append(f"filecopy 1 {length} {b} {1 if sparse else 0} {','.join(f'{a}-{z}' for a, z in sk) or '-'} | {' '.join(ans)}")
+            reqs.append(f"filecopy {linux} {length} {b} {1 if sparse else 0} {','.join(f'{a}-{z}' for a, z in sk) or '-'} | {' '.join(ans)}")
             meta.append(('file', dst, toks, None))
         else:
             fiemap_failed = any(e['sys'] == 'fiemap' and e.get('fdpath') == src and e['ret'] == -errno.EOPNOTSUPP for e in r.trace)
@@ -183,9 +183,11 @@ def verify_case(ctx, root, c, pairs, r, label, known=None):
             ex = 'unsupported' if fiemap_failed else ' '.join(f"{a}-{z}{'s' if s else 'u'}" for a, z, s, _ in exts)
             reqs.append(f'pbjobs {length} {b} {1 if sparse else 0} {ex}')
             meta.append(('jobs', dst, calls, (src, length)))
+    c.model_failed = []
     if not reqs:
         return bad
     model = core.ask(core.MODEL, reqs)
+    model_failed = []
     more_reqs, more_meta = [], []
     for (kind, dst, x, extra), m, rq in zip(meta, model, reqs):
         ctx.cov['traces_validated_against_impl'] += 1
@@ -195,6 +197,8 @@ def verify_case(ctx, root, c, pairs, r, label, known=None):
             ok = mt == x or (failed_run and mt is not None and x == mt[:len(x)])
             if mt is not None and not failed_run and not stop.startswith('ok'):
                 ok = False
+            if mt is not None and not stop.startswith('ok'):
+                model_failed.append(stop)
             if not ok:
                 ctx.cov['disagreements_checked'] += 1; bad += 1
                 ctx.violation(f'{label}-corr.json', dict(case=c.__dict__, file=os.path.basename(dst), request=rq, model=m, observed=x, exit=r.exit, stderr=r.stderr[-500:],
@@ -217,7 +221,7 @@ def verify_case(ctx, root, c, pairs, r, label, known=None):
                 for e in mine:
                     used.add(e['n'])
                 ans, toks = script_for(mine, src, dst)
-                more_reqs.append(f"blockjob 1 {off0} {nbytes} | {' '.join(ans)}")
+                more_reqs.append(f"blockjob {linux} {off0} {nbytes} | {' '.join(ans)}")
                 more_meta.append((dst, toks, off0, nbytes))
             stray = [e for e in calls if e['n'] not in used]
             if stray and r.cls == '0':
@@ -231,10 +235,22 @@ def verify_case(ctx, root, c, pairs, r, label, known=None):
             mt, stop, _ = model_tokens(m)
             failed_run = r.cls != '0'
             ok = mt == toks or (failed_run and mt is not None and toks == mt[:len(toks)])
+            if mt is not None and not stop.startswith('ok'):
+                model_failed.append(stop)
+                if not failed_run:
+                    ok = False
             if not ok:
                 ctx.cov['disagreements_checked'] += 1; bad += 1
                 ctx.violation(f'{label}-blockcorr.json', dict(case=c.__dict__, file=os.path.basename(dst), block=(off0, nbytes), request=rq, model=m, observed=toks, exit=r.exit,
                                                               stderr=r.stderr[-500:], correspondence='parblock block job / copy_file_offset vs Xcp.blockJob'),
                               f'model/implementation disagree on block {off0}+{nbytes} of {os.path.basename(dst)}', no_input=True)
                 break
+    c.model_failed = model_failed
     return bad
+
+
+def probe_argv(c):
+    """the same case through the library probe (harness crate; used for the build without the Linux backend)"""
+    a = ['--driver', c.driver, '--workers', str(c.workers), '--reflink', c.reflink, '--block-size', str(eff_bsize(c)),
+         '--no-target-directory', '--updater', 'channel']
+    return a + list(c.extra) + ['--', 'S', 'D']
